@@ -370,3 +370,20 @@ add('C18', 'third-pass-without-prefixcount', RTF, "    # Perform third loop thro
     "    # Perform third loop through training data\n    # Re-Initialize the file input to read passwords from\n    file_input = TrainerFileInput(\n                    program_info['training_file'], \n                    program_info['encoding'])", 'fire', 'C18.R6')
 add('C19', 'reader-encoding-remapped', TFI, "        self.encoding = encoding\n        self.filename = filename", "        if encoding.lower() == 'utf-8':\n            encoding = 'utf-8-sig'\n        self.encoding = encoding\n        self.filename = filename", 'fire', 'C19.R5')
 add('C20', 'terminal-set-validated', ERF, "        program_info['terminal_set'] = [x.upper() for x in args.terminal_set.split(',')]", "        program_info['terminal_set'] = [x.upper() for x in args.terminal_set.split(',') if x.upper() in 'ADOKXY']", 'fire', 'C20.R6')
+
+# ---- behaviour-preserving edits: ALL properties must stay silent ('*') --------------------------------------------
+add('*', 'stderr-trace-in-next', PQF, "        queue_item = heapq.heappop(self.p_queue)\n", "        queue_item = heapq.heappop(self.p_queue)\n        if False:\n            print('popped', file=sys.stderr)\n", 'silent')
+add('*', 'find-prob-local-renamed', PGF, "        prob = base_prob\n\n        for item in pt:\n            pt_type = item[0]\n            index = item[1]\n            prob *= self.grammar[pt_type][index]['prob']\n\n        return prob", "        p = base_prob\n\n        for item in pt:\n            pt_type = item[0]\n            index = item[1]\n            p *= self.grammar[pt_type][index]['prob']\n\n        return p", 'silent')
+add('*', 'queue-empty-test-truthiness', PQF, "        if len(self.p_queue) == 0:\n            return None", "        if not self.p_queue:\n            return None", 'silent')
+add('*', 'loader-prev-prob-renamed', GIO, [("            prev_prob = -1.0\n", "            last_prob = -1.0\n"), ("                if prob == prev_prob:\n", "                if prob == last_prob:\n"), ("                    prev_prob = prob\n\n                    item = {", "                    last_prob = prob\n\n                    item = {")], None, 'silent')
+add('*', 'keypress-extra-stderr-line', CSF, '                print ("Exit command received",file=sys.stderr)', '                print ("Exit command received",file=sys.stderr)\n                print ("(saving)",file=sys.stderr)', 'silent')
+add('*', 'trainer-extra-status-print', RTF, '    print("Performing the first pass on the training passwords")', '    print("Performing the first pass on the training passwords")\n    print("(this can take a while)")', 'silent')
+add('*', 'child-copy-by-slice', PGF, "            child = copy.copy(parent_pt)\n            child[pos] = (child[pos][0], child[pos][1]+1)\n\n            # Check to see if the child belongs to this parent", "            child = parent_pt[:]\n            child[pos] = (child[pos][0], child[pos][1]+1)\n\n            # Check to see if the child belongs to this parent", 'silent')
+add('*', 'check-valid-reordered', TFI, [('    if "\\t" in input_password:\n        return False\n', ''), ('    if u"\\u0085" in input_password:\n        return False\n', '    if u"\\u0085" in input_password:\n        return False\n\n    if "\\t" in input_password:\n        return False\n')], None, 'silent')
+add('*', 'unused-import-and-helper', PGF, "import random\n\n# Local imports", "import random\nimport itertools\n\n# Local imports", 'silent')
+add('*', 'scorer-docstring-and-blank-lines', SPS, "        omen_score = self.omen.parse(password)\n", "        # OMEN first\n\n        omen_score = self.omen.parse(password)\n", 'silent')
+add('*', 'edit-rules-message-text', ERF, "    print('Checking length of gramamrs...')", "    print('Checking length of grammars...')", 'silent')
+add('*', 'omen-loader-error-text', OIOF, 'print("Hmm that shouldn\'t happen. Hit an unexpected error with the function to load the rules", file=sys.stderr)', 'print("Unexpected n-gram table name", file=sys.stderr)', 'silent')
+add('*', 'status-report-extra-field', 'lib_guesser/status_report.py', '        print("Probability Coverage: " + str(self.probability_coverage),file=sys.stderr)', '        print("Probability Coverage: " + str(self.probability_coverage),file=sys.stderr)\n        print("Mode: priority queue",file=sys.stderr)', 'silent')
+add('*', 'honeyword-banner-text', 'lib_guesser/honeyword_session.py', 'print ("Starting to generate honeyword guesses",file=sys.stderr)', 'print ("Starting to generate honeywords",file=sys.stderr)', 'silent')
+add('*', 'digit-detector-local-renamed', DIG, [("    working_string = section[0]\n", "    text = section[0]\n"), ("    for pos, value in enumerate(working_string):", "    for pos, value in enumerate(text):"), ("        if not value.isdigit() or pos == len(working_string) - 1:", "        if not value.isdigit() or pos == len(text) - 1:")], None, 'silent')
